@@ -30,6 +30,11 @@ type c19Case struct {
 	Name    string `json:"name"`
 	NoName  bool   `json:"name_omitted"`
 	File    string `json:"file"`
+	// OutExists: the output file exists already and is longer than the container (a rebuild after the
+	// program shrank); InPlace: 1 the output path is the input path (convert in place), 2 the output path
+	// is a symbolic link to the input file
+	OutExists bool `json:"output_exists_longer,omitempty"`
+	InPlace   int  `json:"in_place,omitempty"`
 }
 
 // c19Stdin: input path of the cases whose image is piped in.
@@ -97,6 +102,22 @@ func c19Run(dir string, bin string, cs *c19Case) []string {
 	in := filepath.Join(dir, cs.File)
 	outp := filepath.Join(dir, "out.bin")
 	os.Remove(outp)
+	outArg := "out.bin"
+	if cs.OutExists {
+		junk := bytes.Repeat([]byte{0xEE}, 70000)
+		if err := os.WriteFile(outp, junk, 0o644); err != nil {
+			return []string{"framework: " + err.Error()}
+		}
+	}
+	switch cs.InPlace {
+	case 1:
+		outArg, outp = cs.File, in
+	case 2:
+		if err := os.Symlink(cs.File, outp); err != nil {
+			return []string{"framework: " + err.Error()}
+		}
+		defer os.Remove(outp)
+	}
 	piped := cs.File == c19Stdin
 	if cs.File == "link.cim" {
 		// the image is reached through a symbolic link
@@ -119,9 +140,9 @@ func c19Run(dir string, bin string, cs *c19Case) []string {
 	var args []string
 	args = append(args, "-cim", cs.File)
 	if cs.Tool == "cim2bin" {
-		args = append(args, "-bin", "out.bin")
+		args = append(args, "-bin", outArg)
 	} else {
-		args = append(args, "-cas", "out.bin")
+		args = append(args, "-cas", outArg)
 		if !cs.NoName {
 			args = append(args, "-nam", cs.Name)
 		}
@@ -244,6 +265,16 @@ func checkC19(c *Ctx) {
 	} else {
 		c.Set("piped_input", "skipped: no /dev/stdin here")
 	}
+	// the output file exists already and is longer; the image is converted in place
+	for _, tool := range []string{"cim2bin", "cim2cas"} {
+		for _, l := range []int{1, 37, 4096, 65536 - 0xA000} {
+			for _, off := range []int{-1, 0} {
+				cases = append(cases, c19Case{Tool: tool, Len: l, Off: off, Content: 1, Name: "OLD", File: "in.cim", OutExists: true})
+				cases = append(cases, c19Case{Tool: tool, Len: l, Off: off, Content: 3, Name: "SAME", File: "in.cim", InPlace: 1})
+				cases = append(cases, c19Case{Tool: tool, Len: l, Off: off, Content: 1, NoName: true, File: "in.cim", InPlace: 2})
+			}
+		}
+	}
 	var evals [16 * 8]int64
 	var failed int32
 	parallel(int64(len(cases)), 8, 16, func(wi int, lo, hi int64) {
@@ -270,7 +301,7 @@ func checkC19(c *Ctx) {
 	c.Transitions = c.Evaluations
 	c.Traces = c.Evaluations
 	c.Exhaustive = true
-	c.Rule = fmt.Sprintf("%d runs of the command binaries built from the current tree: tools {cim2bin, cim2cas} x offsets {0,1,0x4000, flag omitted (=0xA000), 0xA000, 0xFFFE, 0xFFFF} x image lengths {1,2,255,256,4096,65535-off,65536-off (end address = 0xFFFF)} (thorough: 9 more) x contents {zeros, ramp, FF, header look-alike} x for cim2cas names {omitted (default = file name, also shorter and longer than six), \"\", 1,2,5,6,7,12 characters, with a space, with a dot}; the image also piped in through /dev/stdin and reached through a symbolic link; output compared byte for byte with a header model (0xFE/start/end/exec; sync, 10 x D0, name[6], sync, start/end/exec) + unmodified body. All cases are distinct and non-trivial (each produces a container).", len(cases))
+	c.Rule = fmt.Sprintf("%d runs of the command binaries built from the current tree: tools {cim2bin, cim2cas} x offsets {0,1,0x4000, flag omitted (=0xA000), 0xA000, 0xFFFE, 0xFFFF} x image lengths {1,2,255,256,4096,65535-off,65536-off (end address = 0xFFFF)} (thorough: 9 more) x contents {zeros, ramp, FF, header look-alike} x for cim2cas names {omitted (default = file name, also shorter and longer than six), \"\", 1,2,5,6,7,12 characters, with a space, with a dot}; the image also piped in through /dev/stdin and reached through a symbolic link; the output file already existing and longer than the container; conversion in place (output path = input path, or a symbolic link to it); output compared byte for byte with a header model (0xFE/start/end/exec; sync, 10 x D0, name[6], sync, start/end/exec) + unmodified body. All cases are distinct and non-trivial (each produces a container).", len(cases))
 	c.Bound = "lattice " + c.Tier
 	c.Sample(cases[0])
 	c.Sample(cases[len(cases)-1])
